@@ -259,14 +259,25 @@ def collect_pfails(paths):
     return fails, checked
 
 
-def run_cases(cases, tag, kvrun=KVRUN, impl_env=None, keep=False):
-    """returns (mismatches, pfails, result-lines, p-evaluations)"""
+LAST_KSLICE = None
+
+
+def run_cases(cases, tag, kvrun=KVRUN, impl_env=None, keep=False, kslice_pid=None):
+    """returns (mismatches, pfails, result-lines, p-evaluations); with kslice_pid, some of the histories are also
+    evaluated inside Coq (lib/kslice.py) and the outcome is left in LAST_KSLICE"""
+    global LAST_KSLICE
     d = workdir(tag)
     try:
         paths = write_shards(cases, d)
         run_sides(paths, d, kvrun=kvrun, impl_env=impl_env)
         mism, nlines = diff_outputs(paths)
         pf, checked = collect_pfails(paths)
+        if kslice_pid:
+            import kslice
+            parsed = {}
+            for p in paths:
+                parsed.update(parse_out(p + '.impl'))
+            LAST_KSLICE = kslice.run(COQ, parsed, kslice_pid)
         return mism, pf, nlines, checked
     finally:
         if not keep and not os.environ.get("KV_KEEP"):
